@@ -207,10 +207,12 @@ pub struct MsgParams {
     pub large: bool,
     /// ids from a small pool (filters, statistics)
     pub pool_ids: bool,
+    /// fix the five header flags (bits 0-4 of HTYP) and the MSIN byte (systematic grid of C02)
+    pub cell: Option<(u8, u8)>,
 }
 impl Default for MsgParams {
     fn default() -> Self {
-        MsgParams { storage: StorageMode::Either, large: true, pool_ids: false }
+        MsgParams { storage: StorageMode::Either, large: true, pool_ids: false, cell: None }
     }
 }
 
@@ -222,11 +224,28 @@ enum PayloadSpec {
     NonVerbose(u32, Vec<u8>),
 }
 
-fn n_args(large: bool) -> BoxedStrategy<usize> {
+fn arg_list(large: bool, elem: BoxedStrategy<RArg>) -> BoxedStrategy<Vec<RArg>> {
     if large {
-        prop_oneof![20 => 0usize..8, 2 => 8usize..40, 1 => 200usize..=255].boxed()
+        prop_oneof![20 => vec(elem.clone(), 0..8), 2 => vec(elem.clone(), 8..40), 1 => vec(elem, 200..=255)].boxed()
     } else {
-        (0usize..6).boxed()
+        vec(elem, 0..6).boxed()
+    }
+}
+
+/// payload of the kind a given MSIN byte admits
+fn payload_for_msin(msin: u8, large: bool) -> BoxedStrategy<(u8, PayloadSpec)> {
+    let big = if large { 65535 } else { 40 };
+    let mstp = (msin >> 1) & 7;
+    if msin & 1 != 0 {
+        if mstp == 2 {
+            arg_list(large, nw_arg(big)).prop_map(move |a| (msin, PayloadSpec::NwTrace(a))).boxed()
+        } else {
+            arg_list(large, arg(big)).prop_map(move |a| (msin, PayloadSpec::Verbose(a))).boxed()
+        }
+    } else if mstp == 3 {
+        (any::<u8>(), blob(big)).prop_map(move |(s, d)| (msin, PayloadSpec::Control(s, d))).boxed()
+    } else {
+        (any::<u32>(), blob(big)).prop_map(move |(id, d)| (msin, PayloadSpec::NonVerbose(id, d))).boxed()
     }
 }
 
@@ -246,8 +265,8 @@ fn payload_spec(ueh: bool, large: bool) -> BoxedStrategy<(u8, PayloadSpec)> {
     let ctrl_msin = mtin().prop_map(|i| (3 << 1) | (i << 4));
     let service = prop_oneof![2 => 0u8..=4, 1 => any::<u8>()];
     prop_oneof![
-        10 => (verbose_msin, n_args(large).prop_flat_map(move |n| vec(arg(big), n))).prop_map(|(m, a)| (m, PayloadSpec::Verbose(a))),
-        3 => (nw_msin, n_args(large).prop_flat_map(move |n| vec(nw_arg(big), n))).prop_map(|(m, a)| (m, PayloadSpec::NwTrace(a))),
+        10 => (verbose_msin, arg_list(large, arg(big))).prop_map(|(m, a)| (m, PayloadSpec::Verbose(a))),
+        3 => (nw_msin, arg_list(large, nw_arg(big))).prop_map(|(m, a)| (m, PayloadSpec::NwTrace(a))),
         3 => (ctrl_msin, service, blob(big)).prop_map(|(m, s, d)| (m, PayloadSpec::Control(s, d))),
         4 => nonverbose(nonverbose_msin.boxed()),
     ]
@@ -353,14 +372,23 @@ pub fn message(p: MsgParams) -> BoxedStrategy<RMsg> {
     } else {
         Just(None).boxed()
     };
+    let cell = p.cell;
+    let flags_ueh = match cell {
+        Some((f, _)) => (any::<u8>().prop_map(move |r| (r & 0xe0) | (f & 0x1f)), Just(f & UEH != 0)).boxed(),
+        None => (any::<u8>(), prop::bool::weighted(0.8)).boxed(),
+    };
     (
-        (any::<u8>(), prop::bool::weighted(0.8), any::<u8>(), storage),
+        (flags_ueh, any::<u8>(), storage).prop_map(|((f, u), m, s)| (f, u, m, s)),
         (idg.clone(), idg.clone(), idg.clone(), idg),
         (any::<u32>(), any::<u32>(), any::<u32>(), any::<u32>()),
         fill,
     )
         .prop_flat_map(move |((flags, ueh, mcnt, with_storage), ids, nums, fill)| {
-            payload_spec(ueh, large).prop_map(move |(msin, spec)| {
+            let spec = match cell {
+                Some((_, msin)) if ueh => payload_for_msin(msin, large),
+                _ => payload_spec(ueh, large),
+            };
+            spec.prop_map(move |(msin, spec)| {
                 let (sh_ecu, ecu, apid, ctid) = ids.clone();
                 let (secs, micros, seid, tmsp) = nums;
                 // flags: version bits 5-7 and WEID/WSID/WTMS/MSBF from the random byte, UEH as chosen
